@@ -183,16 +183,23 @@ class SeqV:
 class RecSeqV:
     """A sequence of fixed-width int records (e.g. the tags of a TagSet): parallel z3 sequences."""
 
-    def __init__(self, cols, kind='tuple'):
+    def __init__(self, cols, kind='tuple', names=None):
         self.cols = list(cols)
         self.kind = kind
+        self.names = names       # field names: elements are records (objects) that also unpack like tuples
 
     @property
     def length(self):
         return Length(self.cols[0])
 
     def elem(self, i):
-        return Tup([c[i] for c in self.cols])
+        vals = [c[i] for c in self.cols]
+        if self.names:
+            t = Tup(vals)
+            return Obj('Record', dict(zip(self.names, vals)),
+                       {'__iter__': lambda ex, self_: t, '__getitem__': lambda ex, self_, k: t.items[concrete(k)]},
+                       name='record')
+        return Tup(vals)
 
     def __repr__(self):
         return 'RecSeqV<%d>' % len(self.cols)
@@ -550,15 +557,16 @@ def PIntList():
 
 
 class PRecSeq(PSort):
-    def __init__(self, width, kind='tuple'):
+    def __init__(self, width, kind='tuple', names=None):
         self.width = width
         self.kind = kind
+        self.names = names
 
     def make(self, ex, name):
         cols = [Const('%s.c%d' % (name, k), S) for k in range(self.width)]
         for c in cols[1:]:
             ex.assume(Length(c) == Length(cols[0]))
-        return RecSeqV(cols, self.kind)
+        return RecSeqV(cols, self.kind, self.names)
 
 
 class PSeqKindBy(PSort):
@@ -2538,35 +2546,39 @@ def model_value(m, v):
     return repr(v)
 
 
-def discharge(vc, rlimit=None, timeout_ms=None):
-    """-> (verdict, seconds, model|None, backend)   verdict in proved/refuted/unknown"""
-    t0 = time.time()
+def _z3py(vc, timeout_ms, seed=None):
     s = z3.Solver()
-    if rlimit or RLIMIT:
-        s.set('rlimit', rlimit or RLIMIT)
-    s.set('timeout', (timeout_ms or TIMEOUT_MS) if vc.kind != 'lemma' else 2000)
+    s.set('timeout', timeout_ms)
+    if seed is not None:
+        s.set('smt.random_seed', seed)
     for p in vc.pc:
         s.add(p)
     s.add(Not(vc.goal))
-    r = s.check()
-    dt = time.time() - t0
-    if r == z3.unsat:
-        return 'proved', dt, None, 'z3'
-    if r == z3.sat:
-        return 'refuted', dt, s.model(), 'z3'
-    # second opinion on the same query text: the other installed solvers (z3 4.8.12 CLI, cvc5 CLI).
-    # Only `unsat` is taken from them (a proof); anything else leaves the obligation undecided.
+    return s, s.check()
+
+
+def discharge(vc, rlimit=None, timeout_ms=None):
+    """-> (verdict, seconds, model|None, backend)   verdict in proved/refuted/unknown.
+    Portfolio, so that verdicts do not flip when all cores are busy: z3 (python API, short budget) -> z3 4.8.12 CLI ->
+    cvc5 CLI on the same SMT-LIB text (only `unsat` is taken from the CLIs) -> z3 python API with the long budget."""
     import subprocess
     import tempfile
+    t0 = time.time()
+    long_ms = timeout_ms or TIMEOUT_MS * 3
+    s, r = _z3py(vc, 2000 if vc.kind == 'lemma' else 4000)
+    if r == z3.unsat:
+        return 'proved', time.time() - t0, None, 'z3'
+    if r == z3.sat:
+        return 'refuted', time.time() - t0, s.model(), 'z3'
     text = '(set-logic ALL)\n' + s.to_smt2()
     fd, path = tempfile.mkstemp(suffix='.smt2', prefix='pyvc-')
     try:
         with os.fdopen(fd, 'w') as f:
             f.write(text)
-        for name, cmd in (('z3-4.8', ['/usr/bin/z3', '-T:%d' % max(5, (timeout_ms or TIMEOUT_MS) // 1000), path]),
-                          ('cvc5', ['/usr/bin/cvc5', '--strings-exp', '--tlimit=%d' % (timeout_ms or TIMEOUT_MS), path])):
+        for name, cmd in (('z3-4.8', ['/usr/bin/z3', '-T:%d' % max(5, long_ms // 1000), path]),
+                          ('cvc5', ['/usr/bin/cvc5', '--strings-exp', '--tlimit=%d' % long_ms, path])):
             try:
-                p = subprocess.run(cmd, capture_output=True, text=True, timeout=(timeout_ms or TIMEOUT_MS) / 1000 + 10)
+                p = subprocess.run(cmd, capture_output=True, text=True, timeout=long_ms / 1000 + 10)
             except (OSError, subprocess.TimeoutExpired):
                 continue
             out = (p.stdout or '').strip().split('\n')[0] if p.stdout else ''
@@ -2577,4 +2589,9 @@ def discharge(vc, rlimit=None, timeout_ms=None):
             os.unlink(path)
         except OSError:
             pass
+    s, r = _z3py(vc, long_ms, seed=7)
+    if r == z3.unsat:
+        return 'proved', time.time() - t0, None, 'z3(long)'
+    if r == z3.sat:
+        return 'refuted', time.time() - t0, s.model(), 'z3(long)'
     return 'unknown', time.time() - t0, None, 'z3:' + s.reason_unknown()
